@@ -456,6 +456,16 @@ func c23(r *core.Run) {
 		}
 	}
 	r.Floor("R2.edges", 20)
+	// R4 who may remove without deleting: RemoveValueWithoutDeletion hands the stored value to the caller and does not
+	// deep-remove it; only the load path (RemoveStored: the program receives the value) and RemoveValue itself (which
+	// deletes afterwards) may use it. Any other caller leaves the removed value's slabs in the ledger.
+	nNoDel := whoMayCall(r, "R4.nodelete", "DomainStorageMap.RemoveValueWithoutDeletion", methodOf("RemoveValueWithoutDeletion", mod+"/interpreter.DomainStorageMap"), map[string]string{
+		"interpreter.(Interpreter).RemoveStored":     "load: the removed value is returned to the program",
+		"bbq/vm.(Context).RemoveStored":              "load: the removed value is returned to the program",
+		"interpreter.(DomainStorageMap).RemoveValue": "deep-removes the returned storable itself",
+	})
+	r.Check(nNoDel >= 3, "R4.nodelete", "callers of RemoveValueWithoutDeletion", 0, "reviewed callers found", "the reviewed callers of RemoveValueWithoutDeletion were not found")
+	r.Floor("R4.nodelete", 4)
 	// R3
 	if cs := mustFn(r, "R3.health", "runtime", "", "CommitStorage"); cs != nil {
 		chk := core.CallsTo(cs, false, methodOf("CheckHealth", mod+"/runtime.Storage"))
